@@ -8,6 +8,7 @@ def groups(tier):
         dict(id='M.C09.single', desc='Inv preserved by destroy / transfer_within / clone_within from every valid state; removed subtrees unresolvable; descendants iterator', ops=['destroy', 'transfer_within', 'clone_within'], cfg='plain', nA=n1),
         dict(id='M.C09.insert', desc='Inv preserved by insert of builder trees (<=3 nodes) under any parent or none', ops=['insert'], cfg='plain', nA=nA),
         dict(id='M.C09.two', desc='Inv on both DOMs after transfer / clone_into_external / clone_multiple_into_external', ops=D.domrun.TWO_DOM, cfg='plain', nA=nA, nB=nB),
+        dict(id='M.C09.multi_overlap', desc='Inv on both DOMs after clone_multiple_into_external when the requested subtrees overlap or repeat (one request inside another, the same request twice): nothing in the docs excludes it', ops=['clone_multiple_into_external'], cfg='plain_overlap', nA=nA, nB=1),
     ]
     if tier == 'thorough':
         g.append(dict(id='M.C09.props', desc='same with UniqueId + Ref properties present on every instance', ops=D.ALL_OPS, cfg='all', nA=3, nB=2, builder_sizes=(1, 2)))
